@@ -6,3 +6,6 @@ pub mod manager;
 pub mod protocol;
 pub mod relay;
 pub mod util;
+#[cfg(octo_squirrel_verif)]
+#[path = "/verif/seam/mod.rs"]
+pub mod verif;
